@@ -16,6 +16,8 @@ func (ex *Exec) specType(name string, env *Env) (types.Type, string) {
 		return nil, "ref"
 	case "iface":
 		return nil, "iface"
+	case "any":
+		return nil, "any"
 	case "mathint":
 		return nil, "mathint"
 	}
@@ -45,6 +47,11 @@ func (ex *Exec) specApp(sp *Contract, argEs []*Expr, env *Env) Val {
 			s := ex.toSeq(v)
 			flat = append(flat, s.Arr, s.Off, s.Len)
 			binds[p.Name] = s
+		case "any":
+			if sp.Unfold >= 0 {
+				unsup("spec %s: parameters of type any are only allowed in macros", sp.Name)
+			}
+			binds[p.Name] = v
 		case "iface":
 			iv, ok := v.(IfaceV)
 			if !ok {
@@ -87,6 +94,13 @@ func (ex *Exec) specApp(sp *Contract, argEs []*Expr, env *Env) Val {
 			flat = append(flat, s.T)
 			binds[p.Name] = s
 		}
+	}
+	if sp.Unfold < 0 && sp.Def != nil && (sp.Result == "bool" || sp.Result == "any" || sp.Result == "") {
+		if env.depth > 40 {
+			unsup("spec %s: macro expansion too deep", sp.Name)
+		}
+		denv := &Env{vars: binds, pkg: env.pkg, depth: env.depth + 1, fr: nil, old: env.old}
+		return ex.eval1(sp.Def.E, denv)
 	}
 	rt, rkind := ex.specType(sp.Result, env)
 	if sp.Unfold < 0 && sp.Def != nil {
